@@ -66,10 +66,17 @@ def toposort2(data):
     while True:
         ordered = [item for item, dep in data.items() if len(dep) == 0]
         if len(ordered) == 0:
-            break
+            if len(data) == 0:
+                break
+
+            # What's left depends on itself in a circle (classes that refer to
+            # each other). There's no right order then -- which is fine for
+            # what this is used for, the order of definitions inside a schema
+            # document: break the circle at the item that was met first.
+            ordered = [next(iter(data))]
+
         yield sorted(ordered, key=_sort_key)
         done = set(ordered)
         data = dict([(item, (dep - done)) for item, dep in data.items()
                                                            if item not in done])
 
-    assert not data, "A cyclic dependency exists amongst\n%s" % pformat(data)
